@@ -26,30 +26,45 @@ def generate(rng, tier):
         for j in range(12):
             x = 0x900100 + rng.below(0x3000)
             regs = s.regs_x86(x, 0x7000, 0x7100) if arch == "x86" else s.regs_a64(M64, 0x5555, 0x7000, 0x7100)
-            l1 = s.add("unwind R CR ra %s %s S" % (hx(x + 1), regs), tag="%s:repeat:first" % arch)
+            # the rule is cacheable whether or not executing it succeeds (reader E fails every read)
+            memid = "S" if j % 3 else "E"
+            l1 = s.add("unwind R CR ra %s %s %s" % (hx(x + 1), regs, memid), tag="%s:repeat:first:%s" % (arch, memid))
+            s.meta[l1] = {"x": x, "cacheable": True}
             if rng.chance(1, 2):
                 y = x + rng.choice([1, 2, 508, 510, 1017, 1019])          # other slots
-                s.add("unwind R CR ra %s %s S" % (hx(y + 1), regs))
-            l2 = s.add("unwind R CR ra %s %s S" % (hx(x + 1), regs), tag="%s:repeat:second" % arch)
-            s.meta[l2] = {"must_hit": True, "prev": l1}
+                ly = s.add("unwind R CR ra %s %s S" % (hx(y + 1), regs))
+                s.meta[ly] = {"x": y, "cacheable": True}
+            l2 = s.add("unwind R CR ra %s %s %s" % (hx(x + 1), regs, memid), tag="%s:repeat:second:%s" % (arch, memid))
+            s.meta[l2] = {"must_hit": True, "prev": l1, "x": x, "cacheable": True}
         out.append((name, s))
     return out
 
 def judge(script, impl):
+    """exactly-one-counter; hits read no section; repeats of cacheable calls hit; and the category is
+    checked against a shadow of the documented slot semantics (slot = address mod 509 holding
+    (address, module-set identity)) wherever the shadow is certain of the slot's content."""
     bad = []
     last_stats = {}
+    shadow = {}            # cache id -> {slot: ("known", addr, gen) | "unknown"}
+    gen_of = {}            # unwinder id -> identity
+    NAMES = ["hit", "empty slot", "other module set", "other address"]
     for ln in sorted(impl):
         toks = script.lines[ln - 1].split()
+        line = impl[ln]
         if toks[0] == "newcache":
             last_stats[toks[1]] = [0, 0, 0, 0]
+            shadow[toks[1]] = {}
             continue
+        if toks[0] in ("new", "add", "remove", "gen") and line.startswith("gen "):
+            gen_of[toks[1]] = int(line.split()[1]); continue
+        if toks[0] == "clone" and line.startswith("gen "):
+            gen_of[toks[2]] = int(line.split()[1]); continue
         if toks[0] != "unwind":
             continue
-        line = impl[ln]
         if vlib.outcome(line)[0] in ("panic", "hang", "bad", "missing"):
             continue
         st = vlib.stats_of(line); eff = vlib.eff_of(line)
-        c = toks[2]
+        u, c = toks[1], toks[2]
         prev = last_stats.get(c, [0, 0, 0, 0])
         if st is None:
             continue
@@ -57,11 +72,34 @@ def judge(script, impl):
         last_stats[c] = st
         if sorted(d) != [0, 0, 0, 1]:
             bad.append((ln, "call not counted in exactly one category: delta %s" % d)); continue
-        if d[0] == 1 and eff and eff[0] != 0:
+        cat = d.index(1)
+        if cat == 0 and eff and eff[0] != 0:
             bad.append((ln, "a cache hit read the module's unwind sections (%d derefs)" % eff[0]))
         m = script.meta.get(ln, {})
-        if m.get("must_hit") and d[0] != 1:
-            bad.append((ln, "repeated cacheable call was not served from the cache: delta %s" % d))
+        if m.get("must_hit") and cat != 0:
+            bad.append((ln, "repeated cacheable call was not served from the cache: counted as %s" % NAMES[cat]))
+        # shadow of the slot semantics
+        addr = int(toks[4], 16); x = addr if toks[3] == "ip" else addr - 1
+        g = gen_of.get(u)
+        sh = shadow.setdefault(c, {})
+        cur = sh.get(x % N)
+        if g is not None and cur != "unknown":
+            if cur is None:
+                exp = 1
+            elif cur[2] != g:
+                exp = 2
+            elif cur[1] != x:
+                exp = 3
+            else:
+                exp = 0
+            if exp != cat:
+                bad.append((ln, "counted as '%s' but the slot situation is '%s' (slot %d holds %s, call is for address %#x identity %s)"
+                            % (NAMES[cat], NAMES[exp], x % N, cur, x, g)))
+        if cat != 0:
+            if m.get("cacheable") and g is not None:
+                sh[x % N] = ("known", x, g)
+            else:
+                sh[x % N] = "unknown"
     return bad
 
 def project(script, ln, line):
